@@ -3,21 +3,21 @@ PROP = 'C11'
 LEAN_MODULES = ['FalconModel.Handlers', 'FalconModel.HandlersRule', 'FalconModel.MediaTypeProofs']
 DRIVERS = ['mhdriver']
 THEOREMS = [
-    # falcon/media/handlers.py: the memoising resolver over the mutable mapping (model Hd, the code after F08/F09)
-    'Hd.step_coherent', 'Hd.resolve_on_coherent', 'Hd.history_coherent', 'Hd.resolve_fresh',
-    'Hd.xrun_coherent', 'Hd.resolve_fresh_x', 'Hd.copy_preserves_mapping', 'Hd.resolve_rule_fresh',
+    # falcon/media/handlers.py: the memoising resolver over the mutable mapping (model Mh, the code after F08/F09)
+    'Mh.step_coherent', 'Mh.resolve_on_coherent', 'Mh.history_coherent', 'Mh.resolve_fresh',
+    'Mh.xrun_coherent', 'Mh.resolve_fresh_x', 'Mh.copy_preserves_mapping', 'Mh.resolve_rule_fresh',
     # the pre-repair `|=` is not coherent (regression witness, by `decide`)
-    'Hd.ior_stale_witness',
+    'Mh.ior_stale_witness',
     # falcon/util/mediatypes.py (model Mt)
     'Mt.maxScore_ge', 'Mt.maxScore_mem', 'Mt.quality_is_q_of_most_specific', 'Mt.no_matching_range_quality_zero',
     'Mt.bestLoop_spec', 'Mt.bestMatch_never_q0_or_unmatched', 'Mt.bestMatch_is_first_max', 'Mt.malformed_only_value_errors',
 ]
 STATEMENTS = {
-    'Hd.resolve_fresh': 'for every resolution rule f and every history of set / delete / clear / |= / LRU evictions / resolutions starting from a coherent memo, a resolution returns f of the CURRENT mapping',
-    'Hd.resolve_fresh_x': 'the same for histories that also contain update / pop / popitem / setdefault / copy (each is a history of the basic operations)',
-    'Hd.resolve_rule_fresh': 'resolve_fresh_x instantiated with the concrete rule of Handlers.resolve (missing or */* type -> default type; exact key; else mediatypes.best_match over the keys; else 415) on an object created with an empty memo',
-    'Hd.copy_preserves_mapping': 'copy() has exactly the items of the original (also when it is empty) and an empty memo',
-    'Hd.ior_stale_witness': 'with the pre-repair |= (memo not cleared) the history [resolve x; |= {x: h}; resolve x] answers the memoised miss although the mapping designates h',
+    'Mh.resolve_fresh': 'for every resolution rule f and every history of set / delete / clear / |= / LRU evictions / resolutions starting from a coherent memo, a resolution returns f of the CURRENT mapping',
+    'Mh.resolve_fresh_x': 'the same for histories that also contain update / pop / popitem / setdefault / copy (each is a history of the basic operations)',
+    'Mh.resolve_rule_fresh': 'resolve_fresh_x instantiated with the concrete rule of Handlers.resolve (missing or */* type -> default type; exact key; else mediatypes.best_match over the keys; else 415) on an object created with an empty memo',
+    'Mh.copy_preserves_mapping': 'copy() has exactly the items of the original (also when it is empty) and an empty memo',
+    'Mh.ior_stale_witness': 'with the pre-repair |= (memo not cleared) the history [resolve x; |= {x: h}; resolve x] answers the memoised miss although the mapping designates h',
     'Mt.quality_is_q_of_most_specific': 'when quality() returns q, either no range matches and q = 0, or q is the q of a range whose (type, subtype, exact-params, #matching-params, q) tuple is lexicographically >= that of every other range',
     'Mt.no_matching_range_quality_zero': 'if no media range of the header matches the media type, quality() = 0',
     'Mt.bestMatch_never_q0_or_unmatched': 'a non-empty best_match() result is one of the candidates and its quality is > 0',
@@ -26,7 +26,7 @@ STATEMENTS = {
 }
 TRUSTED = [
     "Python's float() on the q value (the model uses exact decimals in units of 1/10000; syntactically valid floats with exponent/underscore/>4 fraction digits are outside the modelled fragment and go to the oracle only)",
-    'functools.lru_cache as a sub-memo of its function (entries are only ever f(args); eviction drops entries) - the shape the Hd model gives the memo',
+    'functools.lru_cache as a sub-memo of its function (entries are only ever f(args); eviction drops entries) - the shape the Mh model gives the memo',
     'collections.UserDict / MutableMapping routing update/pop/popitem/clear/setdefault through __setitem__/__delitem__ (observed by the correspondence on every run)',
 ]
 ASSUMPTIONS = [
@@ -39,7 +39,7 @@ RULE = ('negotiation: Accept headers rendered from a generated AST of 1..5 media
         'q in 0..4 digits or invalid, random OWS and parameter-name case, designated-invalid members) x 1..4 candidates, checked through mediatypes.quality/best_match, '
         'req.client_accepts/client_prefers (WSGI and ASGI Request); plus a junk stream of arbitrary header strings; '
         'handlers: histories of 1..10 operations (set/delete/update/pop/popitem/clear/copy/|=/setdefault/LRU floods/resolve, a fifth via Request.get_media/Response.render_body) over media-type keys with wildcards and parameters, '
-        'exhaustive over a 19-operation alphabet on a 3-type universe up to length 2 (quick) / 4 (thorough); '
+        'exhaustive over a 19-operation alphabet on a 3-type universe (x 3 initial mappings) up to length 3 (quick) / 4 (thorough); '
         'non-trivial = a matching range/handler was found through the specificity order (not an exact-string hit) or the history mutated the mapping between two resolutions; distinct = distinct input strings / operation lists')
 PARTIAL = ''
 JOBS = {'quick': 4, 'thorough': 16}
@@ -173,9 +173,30 @@ def spec_best(cands, ranges):
     return qs.index(top) if top > 0 else None
 
 
+import contextlib  # noqa: E402
+
+
+@contextlib.contextmanager
+def alarm(seconds=3.0):
+    """Like runner.alarm, but on the process's own CPU time (ITIMER_VIRTUAL): a call that loops burns CPU and is caught,
+    a worker that is merely descheduled on a loaded machine is not reported as a hang."""
+    import signal
+    from runner import Hang
+
+    def _fire(signum, frame):
+        raise Hang()
+    old = signal.signal(signal.SIGVTALRM, _fire)
+    signal.setitimer(signal.ITIMER_VIRTUAL, seconds)
+    try:
+        yield
+    finally:
+        signal.setitimer(signal.ITIMER_VIRTUAL, 0)
+        signal.signal(signal.SIGVTALRM, old)
+
+
 def observe(fn, *a):
     from falcon import errors
-    from runner import alarm, Hang
+    from runner import Hang
     try:
         with alarm(3):
             return ('ok', fn(*a))
@@ -248,7 +269,7 @@ def _negotiation(ctx):
         return falcon.Request(ft.create_environ(headers={'Accept': accept}))
 
     # ---- exact mode
-    for ci in range(ctx.n(20000, 240000)):
+    for ci in range(ctx.n(40000, 240000)):
         ranges = [gen_range(rnd) for _ in range(rnd.choice([1, 1, 2, 2, 3, 4, 5]))]
         if rnd.random() < 0.5:
             # adversarial ties: several ranges that all match one target with different specificity
@@ -325,7 +346,7 @@ def _negotiation(ctx):
     # ---- junk mode: arbitrary strings from the alphabet of the grammar
     ATOMS = ['text', 'application', 'json', 'plain', '*', '/', '/', ';', ';', '=', ',', ',', ' ', '\t', 'q', 'Q', 'q=', 'q=0', 'q=0.5', 'q=1', '0', '.', '5', '1',
              '"', '"', '\\', 'charset', 'utf-8', 'v', 'Text', '-', '+', 'e', '_', 'nan', 'inf', '1e-1', '0.33333', 'é', 'q=١']
-    for ci in range(ctx.n(8000, 100000)):
+    for ci in range(ctx.n(16000, 100000)):
         k = rnd.random()
         if k < 0.5:
             header = ''.join(rnd.choice(ATOMS) for _ in range(rnd.randint(0, 12)))
@@ -412,7 +433,7 @@ def _handlers(ctx):
     from falcon.media import Handlers, BaseHandler
     from falcon.request import RequestOptions
     from falcon.response import ResponseOptions
-    from runner import alarm, Hang
+    from runner import Hang
     rnd = ctx.rng
 
     class H(BaseHandler):
@@ -426,7 +447,7 @@ def _handlers(ctx):
 
     O_H = ('resolution = the handler the CURRENT mapping designates (exact key, else best match over the keys; missing or */* type -> default type) '
            'or 415 / (None, None, None); the mapping itself = the same operations on a plain dict; copy preserves it (also when empty)')
-    sess = ctx.session('Handlers histories = Hd model (rule: exact key, else Mt.bestMatch)', 'mhdriver')
+    sess = ctx.session('Handlers histories = Mh model (rule: exact key, else Mt.bestMatch)', 'mhdriver')
 
     # AST universe for the random histories: keys and content types
     def K(main, sub, **ps):
@@ -660,7 +681,7 @@ def _handlers(ctx):
     ALPHA = ([('set', k) for k in U] + [('del', k) for k in U] + [('ior', (k,)) for k in U] +
              [('pop', 'text/plain'), ('setdefault', 'text/plain'), ('update', ('text/plain', 'application/json')), ('clear',), ('copy', True), ('popitem',)] +
              [('resolve', ct, 'application/json', None, 'direct') for ct in ('application/json', 'text/plain', 'text/html', None)])
-    maxlen = 2 if ctx.quick else 4
+    maxlen = 3 if ctx.quick else 4
     allh = []
     for L in range(0, maxlen + 1):
         allh.extend(itertools.product(ALPHA, repeat=L))
@@ -673,7 +694,7 @@ def _handlers(ctx):
             ctx.count('history_exhaustive')
 
     # ---- random histories, length <= 10
-    for ci in range(ctx.n(8000, 100000)):
+    for ci in range(ctx.n(16000, 100000)):
         k = rnd.random()
         init = None if k < 0.25 else rnd.sample(KSTR, rnd.randint(0, 4))
         ops = []
